@@ -52,6 +52,7 @@ import (
 	"sort"
 	"strings"
 	"sync"
+	"sync/atomic"
 	"time"
 
 	"github.com/bokysan/socketace/v2/internal/client/listener"
@@ -254,6 +255,7 @@ type tagChannel struct{ name, tag string }
 func (c *tagChannel) String() string { return c.name }
 func (c *tagChannel) Name() string   { return c.name }
 func (c *tagChannel) OpenConnection() (net.Conn, error) {
+	atomic.AddInt32(&polLogical, 1) // logical connections that reached a server (c16_direct.go)
 	a, b := net.Pipe()
 	go tagEcho(b, c.tag)
 	return a, nil
